@@ -191,7 +191,7 @@ def c_facade_forward(c, has_pre, has_post, where):
 
 # ---- do_randomize phase order (C17, C16, C06) -----------------------------------------------------------
 @contract("randomizer.do_randomize.order", ["C17", "C16", "C06", "C05", "C03", "C02", "C01"], ["vsc.model.randomizer.Randomizer.do_randomize"],
-          lambda tier, seed: [(n, inl, fail) for n in (1, 2) for inl in (False, True) for fail in ("no", "solve", "pre", "post")],
+          lambda tier, seed: [(n, inl, fail) for n in (1, 2) for inl in (False, True) for fail in ("no", "solve", "pre", "post", "rewrite")],
           replay="none")
 def c_do_randomize(c, nroots, inline, fail):
     import vsc.model.randomizer as R
@@ -221,6 +221,9 @@ def c_do_randomize(c, nroots, inline, fail):
         def accept(self, v):
             pass
 
+        def dispose(self):
+            log.append(("dispose", self.name))
+
     class Bounds:
         def __init__(self):
             self.bound_m = {"bm": 1}
@@ -232,6 +235,8 @@ def c_do_randomize(c, nroots, inline, fail):
         @staticmethod
         def build(m, bm):
             log.append(("array", getattr(m, "name", "inline")))
+            if fail == "rewrite" and getattr(m, "name", "") == "r0":
+                raise Boom()          # e.g. an index beyond the list met while unrolling a foreach
             return []
 
     class DistB:
@@ -283,11 +288,25 @@ def c_do_randomize(c, nroots, inline, fail):
 
     def last(k):
         return len(kinds) - 1 - kinds[::-1].index(k) if k in kinds else None
+    marks = [e for e in log if e[0] == "set_used_rand"]
     c.check("every root is marked used-random at level 0, once, before anything else",
-            [e for e in log if e[0] == "set_used_rand"] == [("set_used_rand", n, True, 0) for n in names]
-            and last("set_used_rand") < first("pre"))
+            marks[:len(names)] == [("set_used_rand", n, True, 0) for n in names]
+            and [i for i, e in enumerate(log) if e[0] == "set_used_rand" and e[2]][-1] < first("pre"))
+    aborted = fail in ("solve", "pre", "rewrite")
+    c.check("C16: a call that ends with an exception before post_randomize rolls every rewrite back, un-marks every root and "
+            "drops every solver handle (after the last step of the call); a call that completes does none of the un-marking",
+            (marks[len(names):] == [("set_used_rand", n, False, 0) for n in names]
+             and [e[1] for e in log if e[0] == "dispose"] == names
+             and [e for e in log if e[0] == "rollback"] == [("rollback", n) for n in names]
+             and min(i for i, e in enumerate(log) if e[0] in ("dispose",) or (e[0] == "set_used_rand" and not e[2]))
+             > max(i for i, e in enumerate(log) if e[0] in ("pre", "array", "dist", "randomize", "bounds") ))
+            if aborted else (marks[len(names):] == [] and "dispose" not in kinds), info=repr(log))
     c.check("soft priorities of every root (and of the inline block) are cleared at the start of the call",
             [e[1] for e in log if e[0] == "clear_soft"] == names + (["inline"] if inline and fail != "pre" else []))
+    if fail == "rewrite":
+        c.check("an exception raised while the constraints are rewritten for the call propagates", isinstance(exc, Boom))
+        c.check("nothing is solved after a failing rewrite, and no post_randomize runs", "randomize" not in kinds and "post" not in kinds)
+        return
     if fail == "pre":
         c.check("an exception in pre_randomize propagates", isinstance(exc, Boom))
         c.check("nothing is solved and nothing is rewritten after a failing pre_randomize",
